@@ -36,6 +36,7 @@
 #include <rtosc/port-sugar.h>
 #include <rtosc/rtosc.h>
 #include <rtosc/savefile.h>
+#include <rtosc/default-value.h>
 #include <rtosc/pretty-format.h>
 #include <rtosc/arg-val-itr.h>
 #include <map>
